@@ -1,6 +1,6 @@
 (* C09 -- property theorems only.  Proofs live in C09/Proofs*.v. *)
 From Coq Require Import NArith List.
-From DV Require Import Base.Outcome C09.Gen C09.Model C09.Proofs C09.ProofsZone C09.ProofsTrace C09.ProofsVersions C09.ProofsEffect C09.ProofsValues.
+From DV Require Import Base.Outcome C09.Gen C09.Model C09.Proofs C09.ProofsZone C09.ProofsTrace C09.ProofsVersions C09.ProofsEffect C09.ProofsValues C09.ProofsSession.
 Import ListNotations.
 Local Open Scope N_scope.
 
@@ -229,3 +229,75 @@ Theorem C09_no_torn_rrset : forall (Q : rrv -> Prop) is evs v name t,
   Forall (fun it => Q (snd it)) (walk (run (build is) evs) v).
 Proof. exact no_torn_rrset. Qed.
 Print Assumptions C09_no_torn_rrset.
+
+(* ---- what a NEW reader gets (trace runner): before the commit call, right after it, after an
+   abandoned session; the effect of remove_all; frame of the data operations ---- *)
+
+Theorem C09_new_reader_visibility : forall s rd ops r name t,
+  zinv s -> z_writer s = None -> z_cur s + 2 < LIM -> all_data ops ->
+  let pre := [EWAcquire; EWOpen] ++ ops in
+  (exists before,
+     trace s rd (pre ++ [EAcquire r; EQuery r name t; EWalk r]) =
+     before ++ [OAnswer (query s (z_cur s) name t); OWalk (walk s (z_cur s))]) /\
+  (exists before,
+     trace s rd ((pre ++ [ECommit]) ++ [EAcquire r; EQuery r name t; EWalk r]) =
+     before ++ [OAnswer (query (run s pre) (z_cur s + 1) name t); OWalk (walk (run s pre) (z_cur s + 1))]) /\
+  (exists before,
+     trace s rd ((pre ++ [EDrop]) ++ [EAcquire r; EQuery r name t; EWalk r]) =
+     before ++ [OAnswer (query s (z_cur s) name t); OWalk (walk s (z_cur s))]).
+Proof. exact new_reader_visibility. Qed.
+Print Assumptions C09_new_reader_visibility.
+
+Theorem C09_remove_all_effect : forall c w s r,
+  c < w -> z_q c w s -> w <= r -> r < LIM -> walk (data_op s w ERemoveAll) r = [].
+Proof. exact remove_all_effect. Qed.
+Print Assumptions C09_remove_all_effect.
+
+Theorem C09_remove_all_at_effect : forall c w s name r,
+  c < w -> z_q c w s -> w <= r -> r < LIM -> name <> [] ->
+  exists n, find_node (z_nodes (data_op s w (ERemoveAllAt name))) name = Some n /\
+    (forall path, walk_node path n r = []) /\
+    (forall t, v_get (cell_of (data_op s w (ERemoveAllAt name)) name t) r = None).
+Proof. exact remove_all_at_effect. Qed.
+Print Assumptions C09_remove_all_at_effect.
+
+Theorem C09_update_frame : forall s w name t rr name' t',
+  name' <> name \/ t' <> t ->
+  cell_of (data_op s w (EUpdate name t rr)) name' t' = cell_of s name' t'.
+Proof. exact update_frame. Qed.
+Print Assumptions C09_update_frame.
+
+Theorem C09_remove_frame : forall s w name t name' t',
+  name' <> name \/ t' <> t ->
+  cell_of (data_op s w (ERemove name t)) name' t' = cell_of s name' t'.
+Proof. exact remove_frame. Qed.
+Print Assumptions C09_remove_frame.
+
+Theorem C09_special_ops_frame : forall s w e name' t',
+  is_special_op e = true -> cell_of (data_op s w e) name' t' = cell_of s name' t'.
+Proof. exact special_ops_frame. Qed.
+Print Assumptions C09_special_ops_frame.
+
+(* ---- what the commit publishes: the last operation of the session on (name, type), read at
+   the version every reader acquired from now on gets ---- *)
+
+Theorem C09_committed_update_visible : forall s ops name t rr,
+  zinv s -> z_writer s = None -> z_cur s + 2 < LIM -> all_data ops -> rrv_is_empty rr = false ->
+  let sC := run s (([EWAcquire; EWOpen] ++ ops) ++ [EUpdate name t rr; ECommit]) in
+  z_cur sC = z_cur s + 1 /\ v_get (cell_of sC name t) (z_cur sC) = Some rr.
+Proof. exact committed_update_visible. Qed.
+Print Assumptions C09_committed_update_visible.
+
+Theorem C09_committed_remove_visible : forall s ops name t,
+  zinv s -> z_writer s = None -> z_cur s + 2 < LIM -> all_data ops ->
+  let sC := run s (([EWAcquire; EWOpen] ++ ops) ++ [ERemove name t; ECommit]) in
+  z_cur sC = z_cur s + 1 /\ v_get (cell_of sC name t) (z_cur sC) = None.
+Proof. exact committed_remove_visible. Qed.
+Print Assumptions C09_committed_remove_visible.
+
+Theorem C09_committed_remove_all_visible : forall s ops,
+  zinv s -> z_writer s = None -> z_cur s + 2 < LIM -> all_data ops ->
+  let sC := run s (([EWAcquire; EWOpen] ++ ops) ++ [ERemoveAll; ECommit]) in
+  z_cur sC = z_cur s + 1 /\ walk sC (z_cur sC) = [].
+Proof. exact committed_remove_all_visible. Qed.
+Print Assumptions C09_committed_remove_all_visible.
